@@ -10,6 +10,7 @@
 mod arena;
 mod extras;
 mod interp;
+mod marks;
 mod minimise;
 mod oracle;
 mod program;
@@ -39,6 +40,7 @@ pub struct ExecResult {
 
 pub fn execute(case: &scen::Case, source: Source, record_events: bool) -> ExecResult {
     unsafe { arc_swap::verif::reset() };
+    marks::reset();
     interp::setup_world(&case.prog);
     let cfg = case.cfg.to_rt();
     let weak = case.cfg.is_weak();
@@ -285,6 +287,9 @@ fn cmd_worker(args: &[String]) {
     let mut fps: HashSet<u64> = HashSet::new();
     let mut nfps: HashSet<u64> = HashSet::new();
     let mut log_hash = 0xcbf29ce484222325u64;
+    let known = report::load_known();
+    let mut known_seen: BTreeMap<String, u64> = BTreeMap::new();
+    let mut new_failures = 0u64;
     let mut it = 0u64;
     while it < max_execs && t0.elapsed().as_secs_f64() < max_secs {
         let es = exec_seed(seed, prop, worker, it);
@@ -374,14 +379,26 @@ fn cmd_worker(args: &[String]) {
                 n_decisions: r.trace.len(),
                 n_nonzero: r.trace.iter().filter(|d| d.pick != 0).count(),
                 stale_sites: stale_sites(&r.out),
-                markers: world::w(|w| w.markers.clone()),
+                markers: marks::all(),
                 case: case.clone(),
                 picks: encode_picks(&r.trace),
             };
+            // A failure that is a recorded known finding must not stop the exploration: keep one
+            // replay per finding and go on.
+            if let Some(k) = known.findings.iter().find(|k| report::matches_known(k, &rf)) {
+                let n = known_seen.entry(k.id.clone()).or_insert(0u64);
+                *n += 1;
+                bump(&mut s.extra, &format!("known_finding_hits:{}", k.id), 1);
+                if *n > 1 {
+                    continue;
+                }
+            } else {
+                new_failures += 1;
+            }
             let path = format!("{}/tmp-{}-{}-{:016x}.json", outdir, prop, s.mode, es);
             std::fs::write(&path, serde_json::to_string_pretty(&rf).unwrap()).expect("write replay");
             s.failures.push(path);
-            if s.failures.len() >= 4 {
+            if new_failures >= 4 {
                 break;
             }
         }
